@@ -116,7 +116,7 @@ type mItem struct {
 var rewardChangingKinds = []int{0, 20, 35, 45, 45, 55, 55, 65}
 
 // reward views (indices into viewCalls) come first
-var viewWeights = []int{2, 2, 2, 3, 3, 3, 4, 4, 4, 0, 0, 1, 1}
+var viewWeights = []int{2, 2, 2, 3, 3, 3, 4, 4, 4, 0, 0, 0, 1, 1, 1}
 
 func (tw *twin) genViewItem(r *Rng, dry sdk.Context, caller *itutiltypes.TestAccount, which int, self bool) mItem {
 	a := caller
@@ -148,19 +148,35 @@ func (tw *twin) genCallItem(r *Rng, dry sdk.Context, caller *itutiltypes.TestAcc
 func (tw *twin) multiStep(r *Rng, side *Sidecar, cases *CasesFile, idx *int, seq, step int) {
 	t := tw.t
 	sender := tw.actors[r.Intn(len(tw.actors))]
-	structured := r.Chance(55)
+	shapeRoll := r.Intn(100)
+	structured := shapeRoll < 70
 	caller := tw.proxy["pmulti"]
 	if structured && r.Chance(85) || !structured && r.Chance(50) {
 		caller = tw.proxy["pmulti2"]
 	}
 	callerAcc := caller.GetCosmosAddress()
+	tw.curSender = sender
 	require.Equal(t, tw.A.C11Price().String(), tw.B.C11Price().String(), "gas prices of the twin chains diverged")
 
 	qB := tw.B.QueryCtx()
 	dry, _ := qB.CacheContext()
 	var items []mItem
 	shape := "random"
-	if structured {
+	if shapeRoll >= 50 && shapeRoll < 70 {
+		// two calls that change the caller's stake and rewards in a row (the second one the very same call once more, or
+		// another one: it must work on what the first one left, e.g. withdraw-all twice, withdraw-all then transfer), then a
+		// view of the caller's position
+		shape = "change-change-view"
+		first := tw.genCallItem(r, dry, caller, rewardChangingKinds[r.Intn(len(rewardChangingKinds))])
+		items = append(items, first)
+		if r.Chance(40) {
+			k := multiOps[r.Intn(3)]
+			items = append(items, mItem{opName: k.name, opcode: k.op, op: first.op, ns: tw.nativeSideOf(dry, first.op, callerAcc)})
+		} else {
+			items = append(items, tw.genCallItem(r, dry, caller, rewardChangingKinds[r.Intn(len(rewardChangingKinds))]))
+		}
+		items = append(items, tw.genViewItem(r, dry, caller, viewWeights[r.Intn(len(viewWeights))], true))
+	} else if structured {
 		// a view of the caller's own position (mostly a reward view), a call that changes its stake and rewards, the same view
 		// (or another one) again
 		shape = "view-change-view"
@@ -168,7 +184,7 @@ func (tw *twin) multiStep(r *Rng, side *Sidecar, cases *CasesFile, idx *int, seq
 		first := tw.genViewItem(r, dry, caller, which, true)
 		items = append(items, first)
 		items = append(items, tw.genCallItem(r, dry, caller, rewardChangingKinds[r.Intn(len(rewardChangingKinds))]))
-		if r.Chance(40) {
+		if r.Chance(30) {
 			which = viewWeights[r.Intn(len(viewWeights))]
 		}
 		again := mItem{isView: true, acct: first.acct, val: first.val}
